@@ -124,6 +124,19 @@ def run(ctx, report):
             R1.violation(inst, 'key_expr:%s:noreturn' % c, 'key_expr branch for %s returns no key: %s' % (c, norm(body[0])), where(mod, node))
             continue
         ret = rets[0].value
+        extras = []
+        if isinstance(ret, ast.Name):
+            # key = [tag, ..] ; key.append(..) ; return key
+            kname = ret.id
+            init_ = [x.value for st_ in body for x in ast.walk(st_) if isinstance(x, ast.Assign) and len(x.targets) == 1 and u(x.targets[0]) == kname]
+            if init_:
+                ret = init_[0]
+                for st_ in body:
+                    for x in ast.walk(st_):
+                        if isinstance(x, ast.Call) and isinstance(x.func, ast.Attribute) and u(x.func.value) == kname and x.func.attr in ('append', 'extend'):
+                            extras += list(x.args)
+                        if isinstance(x, ast.AugAssign) and u(x.target) == kname:
+                            extras.append(x.value)
         bad = False
         first = ret
         while isinstance(first, ast.BinOp):
@@ -136,7 +149,8 @@ def run(ctx, report):
             tags[tag] = c
         else:
             raise AnalysisError('key_expr branch for %s does not start with a literal tag: %s' % (c, u(ret)))
-        readf = set(n.attr for n in ast.walk(ret) if isinstance(n, ast.Attribute) and isinstance(n.value, ast.Name) and n.value.id == e)
+        whole = [ret] + extras
+        readf = set(n.attr for w_ in whole for n in ast.walk(w_) if isinstance(n, ast.Attribute) and isinstance(n.value, ast.Name) and n.value.id == e)
         for f in M.eq_fields(c) or []:
             if f not in readf:
                 R1.violation(inst, 'key_expr:%s:%s' % (c, f), 'field %s compared by %s.__eq__ is missing from the ordering key '
@@ -145,11 +159,11 @@ def run(ctx, report):
                 bad = True
         # a sub-expression field enters the key through key_expr (its whole content orders the operand, not its presence or its length)
         for f in M.expr_fields(c):
-            occ = [n for n in ast.walk(ret) if isinstance(n, ast.Attribute) and isinstance(n.value, ast.Name) and n.value.id == e and n.attr == f]
+            occ = [n for w_ in whole for n in ast.walk(w_) if isinstance(n, ast.Attribute) and isinstance(n.value, ast.Name) and n.value.id == e and n.attr == f]
             deep = False
             for n in occ:
                 q = parent(n)
-                while q is not None and q is not rets[0]:
+                while q is not None and not isinstance(q, ast.stmt):
                     if isinstance(q, ast.Call) and u(q.func) in ('key_expr', 'key_expr_compose'):
                         deep = True
                     if isinstance(q, (ast.ListComp, ast.GeneratorExp)) and any(g.iter is n for g in q.generators) and isinstance(q.elt, ast.Call) \
@@ -256,28 +270,7 @@ def run(ctx, report):
 
     # ---------------------------------------------------------------- D4 the simplifier does not modify its input
     R4 = report.rule('C13.D4', 'the simplifier never modifies the expression it is given', floor=3)
-    from ..effects import Freshness, stores, base_name
-    from .c12 import IR_FIELDS, all_functions
-    hlp = ctx.mod('expr_helper')
-    n_st = 0
-    for cname, fn in all_functions(hlp):
-        fr = None
-        q = 'expr_helper::%s' % fn.name
-        for node, tgt, kind, attr in stores(fn):
-            if kind not in ('attr', 'delattr') or attr not in IR_FIELDS:
-                continue
-            nm, hops = base_name(tgt)
-            if nm in ('self', 'cls') and hops == 0:
-                continue
-            n_st += 1
-            fr = fr or Freshness(fn)
-            inst = '%s:%s' % (q, norm(node))
-            if fr.is_fresh_at(tgt, node):
-                R4.ok(inst, sample='%s: field %s of a node built in this function' % (inst, attr))
-            else:
-                R4.violation(inst, inst, '%s modifies field %s of a node that belongs to its input (%s): simplifying an expression changes the expression itself, so a second '
-                             'simplification, or another expression sharing the operand, gives a different result' % (fn.name, attr, norm(node)), where(hlp, node),
-                             witness='expr_simp(X ^ C) then expr_simp(C ^ X) with X = Compose(A[0:8], A[8:16], B)')
+    n_st = input_untouched_rule(ctx, R4)
     report.analysed['simplifier_field_stores'] = n_st
 
     # ---------------------------------------------------------------- D5 the fixpoint test of the simplifier uses an exact equality
@@ -296,7 +289,7 @@ def run(ctx, report):
 
     # ---------------------------------------------------------------- D7 one representation per constant
     R7 = report.rule('C13.D7', 'a constant has one representation: the simplifier rebuilds a constant leaf of another integer type in the table\'s (unsigned) type, and every constant it builds '
-                     'takes its type from that table or from a constant operand', floor=10)
+                     'takes its type from that table or from a constant operand', floor=3)
     hlp7 = ctx.mod('expr_helper')
     es = hlp7.func('_expr_simp')
     param = es.args.args[0].arg
@@ -331,7 +324,8 @@ def run(ctx, report):
         else:
             R7.violation('_expr_simp: constant leaf', 'const-leaf:not-rebuilt', 'the constant-leaf case of _expr_simp does not rebuild the constant in the type of %s' % TABLE, where(hlp7, leaf))
     for fname, fn in sorted(hlp7.funcs.items()):
-        if fname not in ('_expr_simp', 'expr_simp', '_expr_simp_w') and not fname.startswith('merge'):
+        called_ = set(c.func.id for c in ast.walk(es) if isinstance(c, ast.Call) and isinstance(c.func, ast.Name))
+        if fname not in ('_expr_simp', 'expr_simp', '_expr_simp_w') and not fname.startswith('merge') and fname not in called_:
             continue
         for n in walk_no_nested(fn):
             if not (isinstance(n, ast.Call) and u(n.func) == 'ExprInt' and n.args):
@@ -346,6 +340,34 @@ def run(ctx, report):
                 R7.ok(inst, sample='%s: type of a constant operand (normalised by the leaf case)' % inst)
             else:
                 R7.violation(inst, 'const-type:%s:%s' % (fname, norm(n)), '%s builds a constant whose type comes neither from %s nor from a constant operand' % (fname, TABLE), where(hlp7, n))
+
+
+def input_untouched_rule(ctx, R4):
+    """Every store to a field of an IR node in the simplifier module hits a node built in the same function (E5 freshness).  Shared with C05, C06 and C07:
+    the evaluator simplifies the caller's expression, so a simplifier that edits its input changes what the next evaluation of the same object returns."""
+    from ..effects import Freshness, stores, base_name
+    from .c12 import IR_FIELDS, all_functions
+    hlp = ctx.mod('expr_helper')
+    n_st = 0
+    for cname, fn in all_functions(hlp):
+        fr = None
+        q = 'expr_helper::%s' % fn.name
+        for node, tgt, kind, attr in stores(fn):
+            if kind not in ('attr', 'delattr') or attr not in IR_FIELDS:
+                continue
+            nm, hops = base_name(tgt)
+            if nm in ('self', 'cls') and hops == 0:
+                continue
+            n_st += 1
+            fr = fr or Freshness(fn)
+            inst = '%s:%s' % (q, norm(node))
+            if fr.is_fresh_at(tgt, node):
+                R4.ok(inst, sample='%s: field %s of a node built in this function' % (inst, attr))
+            else:
+                R4.violation(inst, inst, '%s modifies field %s of a node that belongs to its input (%s): simplifying an expression changes the expression itself, so a second '
+                             'simplification, or another expression sharing the operand, gives a different result' % (fn.name, attr, norm(node)), where(hlp, node),
+                             witness='expr_simp(X ^ C) then expr_simp(C ^ X) with X = Compose(A[0:8], A[8:16], B)')
+    return n_st
 
 
 MUTANTS = [
